@@ -2,9 +2,15 @@ package main
 
 // Correspondence + direct oracle for apps/nsq_to_nsq (property C20, relay clause): the real
 // PublishHandler.HandleMessage + responder against scripted stub destinations (accept / reject /
-// drop the connection / stall / refuse connections), recording message delegates, every mode,
+// drop the connection / refuse connections), recording message delegates, every mode,
 // with and without the JSON filter. The go-nsq response rule applied after HandleMessage is the
 // one of Consumer.handlerLoop (tied by its regenerated skeleton).
+// One message at a time here (one outstanding transaction). Several outstanding transactions completing out of
+// order, transactions that are never answered (stall) and the real Consumer in front of the handler:
+// n2n_giveup_test.go (TestVerifN2NHist, TestVerifN2NGiveUp). Audit round 7 (C31): the `fstr` fed to the model
+// below is read off the implementation's behaviour; every message therefore also prints a FILTER line (filter
+// configuration + INPUT body + what the implementation did) which lib/c20_audit7.py checks against an independent
+// implementation of the JSON stage over the input body.
 
 import (
 	"fmt"
@@ -207,6 +213,25 @@ func TestVerifN2NCorr(t *testing.T) {
 					fail(fmt.Sprintf("message %d finished without being published and without a filter", id))
 				}
 			}
+			{
+				fk, fv, fi := "none", "-", "unseen"
+				if filterOn {
+					fk = filter
+				}
+				if *requireJSONValue != "" {
+					fv = vfHex([]byte(*requireJSONValue))
+				}
+				switch {
+				case nPub == 1:
+					fi = "pass:" + vfHex(pubBody)
+				case m.IsAutoResponseDisabled():
+				case strings.HasPrefix(immediate, "req"):
+					fi = "req"
+				default:
+					fi = "drop"
+				}
+				fmt.Printf("FILTER leg=corr id=%d filter=%s value=%s body=%s model=%s impl=%s\n", id, fk, fv, vfHex(body), fstr, fi)
+			}
 			b2i := func(b bool) int {
 				if b {
 					return 1
@@ -223,9 +248,6 @@ func TestVerifN2NCorr(t *testing.T) {
 			}
 			// the transaction result
 			if m.IsAutoResponseDisabled() {
-				if verb == "stall" {
-					continue
-				}
 				resp := result
 				ok := nPub == 1 && verb == "ok"
 				hist["result:"+verb+":"+strings.SplitN(resp, "(", 2)[0]]++
